@@ -1403,4 +1403,78 @@ theorem dec_row_signs (sf : SF K) (f : Functional) (lv : K) (S : K → K → K) 
 
 end Mean
 
+
+/-! ### squared error -/
+
+section SqErr
+variable {K : Type} [Field K] [LinearOrder K] [IsStrictOrderedRing K] [ScoreOps K] [Inhabited K]
+
+/-- `np.average` never raises a `ValueError` -/
+theorem dec_average_not_valueError (a : List K) (w : Option (List K)) :
+    average a w ≠ .error .valueError := by
+  unfold average
+  cases w with
+  | none =>
+    simp only
+    split_ifs <;> intro h <;> cases h
+  | some w' =>
+    simp only
+    split_ifs <;> intro h <;> cases h
+
+/-- if every pair is admissible, `scoring_function(y, z, w)` does not raise a `ValueError` (given
+equal lengths) -/
+theorem dec_sfMean_not_valueError (sf : SF K) (ys zs : List K) (w : Option (List K))
+    (hlen : ys.length = zs.length) (S : K → K → K)
+    (hS : ∀ p ∈ ys.zip zs, sfPair sf p.1 p.2 = .ok (S p.1 p.2)) :
+    sfMean sf ys zs w ≠ .error .valueError := by
+  unfold sfMean
+  rw [if_neg (by rw [not_not]; exact hlen)]
+  have hm := dec_mapM_map (fun p : K × K => sfPair sf p.1 p.2) (fun p => S p.1 p.2) (ys.zip zs) hS
+  show (List.mapM (fun p : K × K => sfPair sf p.1 p.2) (ys.zip zs) >>= fun s => average s w) ≠ _
+  rw [hm, dec_ok_bind]
+  exact dec_average_not_valueError _ _
+
+/-- … so `yminAllowed` holds when `(y[0], min y)` is an admissible pair -/
+theorem dec_yminAllowed_of_ok (sf : SF K) (ys : List K) (w : Option (List K)) (v : K)
+    (h : sfPair sf ys[0]! (ys.foldl min ys[0]!) = .ok v) : dec_yminAllowed sf ys w = true := by
+  unfold dec_yminAllowed
+  have := dec_sfMean_not_valueError sf [ys[0]!] [ys.foldl min ys[0]!]
+    (w.map (fun w' => w'.take 1)) rfl (fun _ _ => v) (by
+      intro p hp
+      simp only [List.zip_cons_cons, List.zip_nil_right, List.mem_singleton] at hp
+      rw [hp]; exact h)
+  split
+  · rename_i heq; exact absurd heq this
+  · rfl
+
+/-- the squared error per pair (any ordered field: no `ScoreOps` operation is called) -/
+theorem dec_hes_two (y z : K) : hes two half y z = .ok ((z - y) * (z - y)) := by
+  unfold hes
+  have h1 : eqK (two : K) two := (dec_eqK_iff _ _).mpr rfl
+  have h2 : eqK (half : K) half := (dec_eqK_iff _ _).mpr rfl
+  simp only [if_pos h1, if_pos h2, pure_bind]
+  rfl
+
+theorem dec_sfPair_sq (sf : SF K) (hk : sf.kind = .squaredError) (he : sf.elem = none) (y z : K) :
+    sfPair sf y z = .ok ((z - y) * (z - y)) := by
+  unfold sfPair
+  rw [he, hk]
+  exact dec_hes_two y z
+
+/-- for the squared error `functional` is the mean -/
+theorem dec_validate_sq (sf : SF K) (hk : sf.kind = .squaredError) (he : sf.elem = none)
+    (fn : Option (Option Functional)) (hfn : fn = none ∨ fn = some (some .mean)) (lv : Option K) :
+    ∃ l, dec_validate sf fn lv = .ok (Functional.mean, l) := by
+  have hf : dec_fn sf fn = some .mean := by
+    rcases hfn with rfl | rfl
+    · simp [dec_fn, sfFunctional, he, hk]
+    · rfl
+  unfold dec_validate
+  rw [hf]
+  cases lv with
+  | none => exact ⟨half, rfl⟩
+  | some l => exact ⟨l, rfl⟩
+
+end SqErr
+
 end MD
